@@ -214,19 +214,23 @@ def bin_kmu(
         dk = 2.0 * np.pi / L
     else:
         dk = L / n1d
-    kedges2 = ((kedges / dk) ** 2).astype(dtype)
+    # the squared k edges stay in float64: |k|^2 is an exact integer here, and an
+    # edge rounded to float32 can land on it and move the whole shell one bin down
+    kedges2 = (kedges / dk) ** 2
     muedges2 = (muedges**2).astype(dtype)
 
     nthread = numba.get_num_threads()
     counts = np.zeros((nthread, Nk, Nmu), dtype=np.int64)
-    weighted_counts = np.zeros((nthread, Nk, Nmu), dtype=dtype)
+    # accumulate in float64: a float32 running sum stops growing once it
+    # reaches 2**24 times the size of the terms (large meshes, wide bins)
+    weighted_counts = np.zeros((nthread, Nk, Nmu), dtype=np.float64)
     Np = len(poles)
     if Np == 0:
         poles = np.empty(0, dtype=np.int64)  # so that compiler does not complain
     else:
         poles = poles.astype(np.int64)
-    weighted_counts_poles = np.zeros((nthread, len(poles), Nk), dtype=dtype)
-    weighted_counts_k = np.zeros((nthread, Nk, Nmu), dtype=dtype)
+    weighted_counts_poles = np.zeros((nthread, len(poles), Nk), dtype=np.float64)
+    weighted_counts_k = np.zeros((nthread, Nk, Nmu), dtype=np.float64)
 
     # Loop over all k vectors
     for i in numba.prange(n1d):
@@ -247,6 +251,14 @@ def bin_kmu(
                     continue
 
                 if kmag2 >= kedges2[-1]:
+                    break
+
+                # mu grows with kz: nothing to count below the first mu edge,
+                # nothing left in this column above the last one
+                if mu2 < muedges2[0]:
+                    continue
+
+                if mu2 > muedges2[-1]:
                     break
 
                 while kmag2 > kedges2[bk + 1]:
@@ -291,17 +303,17 @@ def bin_kmu(
     for i in range(Nk):
         if Np > 0:
             if counts_poles[i] != 0:
-                weighted_counts_poles[:, i] /= dtype(counts_poles[i])
+                weighted_counts_poles[:, i] /= np.float64(counts_poles[i])
         for j in range(Nmu):
             if counts[i, j] != 0:
-                weighted_counts[i, j] /= dtype(counts[i, j])
-                weighted_counts_k[i, j] /= dtype(counts[i, j])
+                weighted_counts[i, j] /= np.float64(counts[i, j])
+                weighted_counts_k[i, j] /= np.float64(counts[i, j])
     return (
-        weighted_counts,
+        weighted_counts.astype(dtype),
         counts,
-        weighted_counts_poles,
+        weighted_counts_poles.astype(dtype),
         counts_poles,
-        weighted_counts_k,
+        weighted_counts_k.astype(dtype),
     )
 
 
@@ -366,12 +378,14 @@ def bin_kppi(
         dk = 2.0 * np.pi / L
     else:
         dk = L / n1d
-    kedges2 = ((kedges / dk) ** 2).astype(dtype)
-    piedges2 = ((np.linspace(0.0, pimax, Npi + 1) / dk) ** 2).astype(dtype)
+    # float64 squared edges, see bin_kmu
+    kedges2 = (kedges / dk) ** 2
+    piedges2 = (np.linspace(0.0, pimax, Npi + 1) / dk) ** 2
 
     nthread = numba.get_num_threads()
     counts = np.zeros((nthread, Nk, Npi), dtype=np.int64)
-    weighted_counts = np.zeros((nthread, Nk, Npi), dtype=dtype)
+    # float64 accumulators, see bin_kmu
+    weighted_counts = np.zeros((nthread, Nk, Npi), dtype=np.float64)
 
     # Loop over all k vectors
     for i in numba.prange(n1d):
@@ -416,8 +430,8 @@ def bin_kppi(
     for i in range(Nk):
         for j in range(Npi):
             if counts[i, j] != 0:
-                weighted_counts[i, j] /= dtype(counts[i, j])
-    return weighted_counts, counts
+                weighted_counts[i, j] /= np.float64(counts[i, j])
+    return weighted_counts.astype(dtype), counts
 
 
 def project_3d_to_poles(k_bin_edges, raw_p3d, Lbox, poles):
@@ -538,7 +552,9 @@ def linear_interp(xd, x, y):
         return y[-1]
     dx = x[1] - x[0]
     f = (xd - x[0]) / dx
-    fl = np.int64(f)
+    # x[1] - x[0] is a rounded spacing: for xd just below x[-1], f can reach
+    # len(x) - 1, so keep the upper node y[fl + 1] inside the array
+    fl = min(np.int64(f), len(x) - 2)
     yd = y[fl] + (f - fl) * (y[fl + 1] - y[fl])
     return yd
 
